@@ -558,6 +558,7 @@ impl<T: Transport + 'static> SyncEngine<T> {
         }
 
         // Plan deletions if requested
+        let mut deletions_first = 0;
         if self.delete {
             let mut deletions = planner.plan_deletions(&source_files, destination);
             deletions.retain(|task| {
@@ -633,7 +634,23 @@ impl<T: Transport + 'static> SyncEngine<T> {
                 }
             }
 
-            tasks.extend(deletions);
+            // A stale entry at the working-file path of a transfer planned in this run (an
+            // interrupted run's `<name>.sy.tmp` next to a file that is updated again) must
+            // be gone before that transfer starts: the transfer reuses the path, and a delete
+            // task running beside it would remove the file from under it. Such deletions
+            // go first and are completed before any other task is started.
+            let working_files: std::collections::HashSet<PathBuf> = tasks
+                .iter()
+                .filter(|t| matches!(t.action, SyncAction::Create | SyncAction::Update))
+                .map(|t| crate::temp_file::working_file_path(&t.dest_path))
+                .collect();
+            let (mut first, rest): (Vec<_>, Vec<_>) = deletions
+                .into_iter()
+                .partition(|d| working_files.contains(&d.dest_path));
+            deletions_first = first.len();
+            first.append(&mut tasks);
+            tasks = first;
+            tasks.extend(rest);
         }
 
         // End plan timing
@@ -723,8 +740,12 @@ impl<T: Transport + 'static> SyncEngine<T> {
         // Parallel execution with semaphore for concurrency control
         let semaphore = Arc::new(Semaphore::new(self.max_concurrent));
         let mut handles = Vec::with_capacity(tasks.len());
+        let mut results = Vec::with_capacity(tasks.len());
 
-        for task in tasks {
+        for (task_index, task) in tasks.into_iter().enumerate() {
+            if task_index == deletions_first && !handles.is_empty() {
+                results.extend(futures::future::join_all(handles.drain(..)).await);
+            }
             let transport = Arc::clone(&self.transport);
             let dry_run = self.dry_run;
             let diff_mode = self.diff_mode;
@@ -1148,7 +1169,7 @@ impl<T: Transport + 'static> SyncEngine<T> {
         }
 
         // Collect all results
-        let results = futures::future::join_all(handles).await;
+        results.extend(futures::future::join_all(handles).await);
 
         // End transfer timing
         if let Some(ref monitor) = self.perf_monitor {
